@@ -210,3 +210,29 @@ Example ex_heal_in_history :
       (0, 0, 4%nat))] /\
   st_total (cs_stats (fold_left (fun s op => fst (hstep numQ B [] s op)) ops (mkCS stats0 []))) = 6.
 Proof. vm_compute. split; reflexivity. Qed.
+
+(* THE CLOCK: non-vacuity of c11_clock_irrelevant / c11_clock_readings.  The fenced text
+   under a clock that STANDS STILL (every reading 1700000000): both attempts are timed
+   with two equal readings (durations 0 and 0), four readings are made, and the fold is
+   what it is under any other clock. *)
+Example ex_frozen_clock :
+  exists r st l,
+    fold_enhanced_t numQ O_fenced cfg (fun _ => 1700000000%Q) [] [] 0 stats0 0 = (Ret r, st, l, (4%nat, [0%Q; 0%Q])) /\
+    e_valid r = true /\ e_strategy r = Some EXTRACTION /\ length (e_attempts r) = 2%nat /\
+    fold_enhanced numQ O_fenced cfg [] [] 0 stats0 = (Ret r, st, l).
+Proof. eexists. eexists. eexists. split; [vm_compute; reflexivity|]. vm_compute. repeat split. Qed.
+
+(* ... and under a clock that steps BACKWARDS by 1/4 s per reading (durations -250 ms) and
+   the plain fold under a coarse clock (readings 0,0,1,1: both durations 0, dropped with the
+   attempts list) *)
+Example ex_backwards_clock :
+  exists r st l d0 d1,
+    fold_enhanced_t numQ O_fenced cfg (fun k => (100 - inject_Z (Z.of_nat k) * (1 # 4))%Q) [] [] 0 stats0 0
+      = (Ret r, st, l, (4%nat, [d0; d1])) /\ e_valid r = true /\ (d0 == -250)%Q /\ (d1 == -250)%Q.
+Proof. do 5 eexists. split; [vm_compute; reflexivity|]. vm_compute. repeat split. Qed.
+
+Example ex_coarse_clock_plain :
+  exists r st l,
+    fold_t numQ O_fenced cfg (fun k => inject_Z (Z.of_nat (Nat.div2 k))) [] [] 0 stats0 0 = (Ret r, st, l, (4%nat, [0%Q])) /\
+    p_valid r = true /\ fold O_fenced cfg [] [] 0 stats0 = (Ret r, st, l).
+Proof. eexists. eexists. eexists. split; [vm_compute; reflexivity|]. vm_compute. repeat split. Qed.
